@@ -18,6 +18,7 @@ import (
 	"os"
 	"strconv"
 	"strings"
+	"sync"
 	"time"
 	"unsafe"
 )
@@ -94,10 +95,24 @@ func vxLen(max int) int {
 	}
 	return n
 }
-func vxU32() uint32    { return uint32(vxNum("u32")) }
-func vxU16() uint16    { return uint16(vxNum("u16")) }
-func vxU8() uint8      { return uint8(vxNum("u8")) }
-func vxBool() bool     { return vxNum("bool") != 0 }
+func vxU32() uint32 { return uint32(vxNum("u32")) }
+func vxU16() uint16 { return uint16(vxNum("u16")) }
+func vxU8() uint8   { return uint8(vxNum("u8")) }
+
+// vxForced, when non-nil, supplies vxBool's results (model validation; exhausted -> false).
+var vxForced []bool
+
+func vxBool() bool {
+	if vxForced != nil {
+		if len(vxForced) == 0 {
+			return false
+		}
+		b := vxForced[0]
+		vxForced = vxForced[1:]
+		return b
+	}
+	return vxNum("bool") != 0
+}
 func vxChoose(int) int { return int(vxNum("choose")) }
 
 // vxBytes returns a slice of length n and capacity c with arbitrary content
@@ -123,6 +138,18 @@ func vxString(n, max int) string {
 	b := make([]byte, n)
 	copy(b, raw)
 	return string(b)
+}
+
+// vxASCIIString returns an arbitrary string of 0..max ASCII bytes.
+func vxASCIIString(max int) string {
+	n := vxLen(max)
+	s := vxString(n, max)
+	for i := 0; i < len(s); i++ {
+		if s[i] >= 0x80 {
+			panic(vxAssumeFailed{})
+		}
+	}
+	return s
 }
 
 func vxID() (id [12]byte) {
@@ -155,11 +182,30 @@ func vxKnownOpen(key string) bool {
 	}
 	return false
 }
-func vxReach(string)             {}
-func vxUnwind(int, bool)         {}
-func vxGuard(_, _, _ string)     {}
+func vxReach(string)               {}
+func vxUnwind(int, bool)           {}
+func vxGuard(_, _, _ string)       {}
+func vxConcretize(x, _, _ int) int { return x }
+func vxGuardsOff()                 {}
+
+// vxMutexHeld reports whether mu is currently locked.
+func vxMutexHeld(mu *sync.Mutex) bool {
+	if mu.TryLock() {
+		mu.Unlock()
+		return false
+	}
+	return true
+}
 func vxNote(string)              {}
 func vxIsNilSlice(s []byte) bool { return s == nil }
+
+// vxStrAt reads s[i], or 0 when i is out of range (never panics).
+func vxStrAt(s string, i int) byte {
+	if i < 0 || i >= len(s) {
+		return 0
+	}
+	return s[i]
+}
 
 // vxAt reads b[i], or 0 when i is out of range (never panics).
 func vxAt(b []byte, i int) byte {
